@@ -21,7 +21,7 @@ TOK = re.compile(r'''[A-Za-z_]\w*|\.?\d(?:[eEpP][+-]|[\w.])*|(?:u8|u|U|L)?"(?:\\
 
 EXTRA_POOL = ['(', ')', '{', '}', '[', ']', ';', ',', '=', '*', '&', '...', '.', '->', ':', '?', '#', '##', 'int', 'long', 'char', 'struct', 'union', 'enum', 'typedef',
               'static', 'extern', '_Alignas', '_Alignof', 'sizeof', 'return', 'goto', 'switch', 'case', 'default', 'break', 'continue', 'if', 'else', 'for', 'while', 'do',
-              '0', '1', '-1', '1.5', '0x7fffffffffffffff', '18446744073709551615', '99999999999999999999', '"s"', "'c'", 'L"w"', '__VA_ARGS__', 'defined', '_Generic', '_Atomic',
+              '0', '1', '-1', '1.5', '%', '/', '(-9223372036854775807L-1)', '2147483648', '4294967295', '0x7fffffffffffffff', '18446744073709551615', '99999999999999999999', '"s"', "'c'", 'L"w"', '__VA_ARGS__', 'defined', '_Generic', '_Atomic',
               '__builtin_types_compatible_p', '__builtin_compare_and_swap', '__builtin_atomic_exchange', '__builtin_reg_class', '__attribute__', 'packed', 'aligned', 'asm',
               '__typeof__', 'void', 'float', 'double', '_Bool', 'signed', 'unsigned', 'short', 'const', 'volatile', 'inline', '_Noreturn', '_Thread_local', 'x', 'main', 'T']
 
@@ -35,6 +35,11 @@ VALID_SMALL = [
     'void q(void) { int x = ({ int y = 2; y; }); goto *&&L; L: ; __builtin_compare_and_swap(&x, &x, 3); }\nenum E { A, B = 5 }; _Atomic int at;\n',
     'char *s = u8"a" "b"; int w = L\'x\'; void r(int n) { char v[n][n + 1]; (void)sizeof v; asm("nop"); }\n',
     'union U { int a; char b[4]; } x, y; struct P { long l; } p, q;\nint sel(int c) { return (c ? x : y).a + (x = y).b[0] + (c ? p : q).l + (p = q).l; }\n',
+    # arithmetic corners of the constant evaluator and of case labels (values that do not fit a 32-bit immediate)
+    'long m1 = (-9223372036854775807L - 1) % -1, m2 = (-9223372036854775807L - 1) / -1; int m3 = (-2147483647 - 1) % -1;\nenum { EM = (-9223372036854775807L - 1) % -1 };\n'
+    '#if (-9223372036854775807L - 1) % -1 == 0 && (-9223372036854775807L - 1) / -1 != 1\nint m4 = 1 << 31 >> 31, m5 = -1 >> 70, m6 = 1L << 63;\n#endif\n',
+    'int sw(long x, unsigned long u, int i) { switch (x) { case 2147483648: return 1; case 4294967295: return 2; case -2147483649: return 3; case 0x7fffffffffffffff: return 4; case -9223372036854775807L - 1: return 10; }\n'
+    '  switch (u) { case 0xffffffff: return 5; case 0x80000000: return 6; case 18446744073709551615UL: return 7; case 2147483649 ... 2147483651: return 11; }\n  switch (i) { case -2147483647 - 1: return 8; case 2147483647: return 9; } return 0; }\n',
     'int va(int n, ...) { __builtin_va_list ap; return n; }\n'[:0] + 'long f2(long a, long double b, float c) { long double r = a + b * c; return r > 0 ? (long)r : -(long)r; }\n',
 ]
 
